@@ -21,6 +21,7 @@ import (
 	"regexp"
 	"runtime"
 	"runtime/debug"
+	"runtime/pprof"
 	"sort"
 	"strconv"
 	"strings"
@@ -235,7 +236,7 @@ func findFam(fams []Family, name string) *Family {
 var curIndex int64 = -1
 
 func workerMain(spec Spec, fams []Family) {
-	runtime.GOMAXPROCS(2)
+	runtime.GOMAXPROCS(1)
 	parts := strings.Split(*flagWorker, "/")
 	w, _ := strconv.ParseInt(parts[0], 10, 64)
 	W, _ := strconv.ParseInt(parts[1], 10, 64)
@@ -304,6 +305,12 @@ func workerMain(spec Spec, fams []Family) {
 }
 
 func onlyMain(spec Spec, fams []Family) {
+	runtime.GOMAXPROCS(1)
+	if pf := os.Getenv("VLIB_PROF"); pf != "" {
+		f, _ := os.Create(pf)
+		pprof.StartCPUProfile(f)
+		defer pprof.StopCPUProfile()
+	}
 	parts := strings.SplitN(*flagOnly, "/", 2)
 	f := findFam(fams, parts[0])
 	i, _ := strconv.ParseInt(parts[1], 10, 64)
@@ -313,6 +320,7 @@ func onlyMain(spec Spec, fams []Family) {
 	out.WriteString("VLIB-RESULT ")
 	json.NewEncoder(out).Encode(r)
 	out.Flush()
+	pprof.StopCPUProfile()
 	os.Exit(0)
 }
 
@@ -400,7 +408,7 @@ func runWorker(args []string, timeout time.Duration) (*Rec, string, int) {
 	var stdout, stderr bytes.Buffer
 	cmd.Stdout = &stdout
 	cmd.Stderr = &stderr
-	cmd.Env = append(os.Environ(), "GOMAXPROCS=2", "GOTRACEBACK=single")
+	cmd.Env = append(os.Environ(), "GOMAXPROCS=1", "GOTRACEBACK=single")
 	if err := cmd.Start(); err != nil {
 		return nil, "start: " + err.Error(), -1
 	}
